@@ -31,7 +31,7 @@ REQUIRED_LABELS = {
     "thorough": ["pair_same_recipe", "pair_other_type", "pair_clone", "pair_load_twice", "project_pair", "inplace_list_mutation", "reverse_direction", "save_load_a"]
     + ["type_" + t for t in build.attachable_types()],
 }
-INPLACE = ("arr", "mcmap", "harm", "wave", "s_map", "s_point", "s_sample_new", "s_sample_field", "s_env", "m_map", "m_map_inplace", "m_label", "embedded", "effect")
+INPLACE = ("arr", "mcmap", "harm", "wave", "s_map", "s_point", "s_sample_new", "s_sample_alias", "s_sample_field", "s_env", "m_map", "m_map_inplace", "m_label", "embedded", "effect")
 
 
 def exhaustive(tier):
